@@ -533,6 +533,10 @@ impl DrawState {
             term.move_cursor_up(n.saturating_sub(1))?;
         }
 
+        // When nothing was cleared the cursor may still sit in the last column of earlier
+        // output, and only the first character printed moves it to a fresh row.
+        let nothing_cleared = bar_count.as_usize() == 0;
+
         let term_width = term.width() as usize;
 
         // Here we calculate the terminal vertical real estate that the state requires
@@ -576,6 +580,12 @@ impl DrawState {
             }
 
             term.write_str(line.as_ref())?;
+
+            // An empty first line does not wrap by itself: print a blank so that it occupies
+            // the row it is counted for (the last line gets its filler below).
+            if idx == 0 && nothing_cleared && self.lines.len() > 1 && line.console_width() == 0 {
+                term.write_str(" ")?;
+            }
 
             if idx + 1 == self.lines.len() {
                 // For the last line of the output, keep the cursor on the right terminal
